@@ -251,7 +251,13 @@ class Model(LPModel):
 
             eye_indices = [item for inner in primal.qmat for item in inner]
             eye_block = dual_lp.linear[eye_indices, :]
-            if len(eye_block.data) + 1 == len(eye_block.indptr):
+            heads = np.cumsum([0] + [len(qc) for qc in primal.qmat[:-1]])
+            compact = (np.all(np.diff(eye_block.indptr) == 1) and
+                       len(set(eye_indices)) == len(eye_indices) and
+                       len(set(eye_block.indices)) == len(eye_indices) and
+                       np.all(np.abs(eye_block.data) == 1) and
+                       np.all(eye_block.data[heads] == 1))
+            if compact:
                 lin_indices = [ind for ind in range(primal.linear.shape[1])
                                if ind not in eye_indices]
                 linear = dual_lp.linear[lin_indices, :]
